@@ -138,7 +138,7 @@ SNext == \/ \E v \in [Members -> Vals], f \in Faults : WriteStruct(v, f)
 SSpec == SInit /\ [][SNext]_svars
 
 (* ---- properties ---- *)
-MCDepth4 == TLCGet("level") <= 4      \* state constraint of the quick design check
+MCDepth4 == TLCGet("level") <= 3      \* state constraint of the quick design check
 TypeOK == hw \in Fn /\ mem \in Fn /\ str \in Fn /\ merr \subseteq Members /\ serr \in BOOLEAN
 (* without error flags the old formulation: struct = members, member by member *)
 Agree == (merr = {} /\ ~serr) => \A m \in Members : str[m] = mem[m]
